@@ -77,6 +77,10 @@ void World::build_common()
 	if (f.k == J::OBJ && f.gets("ref", "abs") == "abs") {
 		S.faults.t0 = (uint64_t)f.geti("t0_us"); S.faults.t1 = (uint64_t)f.geti("t1_us");
 	}
+	if (f.k == J::OBJ && f.geti("start_drought_us") > 0) {
+		// everything the first client sends in the first moments of the run is lost (its very first query included)
+		S.faults.dr0 = 0; S.faults.dr1 = (uint64_t)f.geti("start_drought_us"); S.faults.dr_host = clients.empty() ? -1 : clients[0].host;
+	}
 	if (f.k == J::OBJ) {
 		S.faults.p_drop = f.getd("p_drop"); S.faults.p_dup = f.getd("p_dup"); S.faults.p_delay = f.getd("p_delay");
 		S.faults.p_trunc = f.getd("p_trunc"); S.faults.p_flip = f.getd("p_flip");
